@@ -47,6 +47,10 @@ def obligated : PC → Bool
   | .get _ | .unmarshal .. | .pdone _ | .relR _ | .unlockR _ => true
   | _ => false
 
+/-- the complement of `danger`: from here the thread appends no frame and starts no transport write
+    unless it first reads `send` and `term` unset -/
+def harmless (p : PC) : Bool := !danger p
+
 gen_ctor_simp atCf23
 gen_ctor_simp atCf3
 gen_ctor_simp preW
